@@ -50,25 +50,36 @@ Lemma civil_clock t n off a :
   c_nsec (civil_of t n off a) = n.
 Proof. unfold civil_of, local_secs. destruct (civil_from_days _) as [[y m] d]. cbn. auto. Qed.
 
-(* same bucket -> same key *)
-Theorem bucket_same_key : forall u t t' n n' off a a',
-  trunc_local u (t + off) = trunc_local u (t' + off) -> (u = UNanos -> n = n') ->
-  format_layout (unit_layout u) (civil_of t n off a) = format_layout (unit_layout u) (civil_of t' n' off a').
+Lemma trunc_years l y m d : civil_from_days (l / 86400) = (y, m, d) -> trunc_local UYears l = year_start y * 86400.
+Proof. intros F. cbn [trunc_local]. rewrite F. reflexivity. Qed.
+Lemma trunc_months l y m d : civil_from_days (l / 86400) = (y, m, d) -> trunc_local UMonths l = days_from_civil y m 1 * 86400.
+Proof. intros F. cbn [trunc_local]. rewrite F. reflexivity. Qed.
+Lemma year_start_inj y y' : year_start y = year_start y' -> y = y'.
 Proof.
-  intros u t t' n n' off a a' H Hn. apply key_depends_on_fields.
-  pose proof (civil_fields_of_day t n off a) as F. pose proof (civil_fields_of_day t' n' off a') as F'.
-  destruct (civil_clock t n off a) as (Ch & Cm & Cs & Cn).
-  destruct (civil_clock t' n' off a') as (Ch' & Cm' & Cs' & Cn').
-  set (c := civil_of t n off a) in *. set (c' := civil_of t' n' off a') in *.
-  set (l := t + off) in *. set (l' := t' + off) in *.
+  intros E. destruct (Z.lt_trichotomy y y') as [L|[E'|L]]; [|exact E'|].
+  - pose proof (year_start_lt_mono _ _ L). lia.
+  - pose proof (year_start_lt_mono _ _ L). lia.
+Qed.
+Lemma mul86400_inj a b : a * 86400 = b * 86400 -> a = b.
+Proof. lia. Qed.
+
+Lemma bucket_fields u l l' c c' :
+  civil_from_days (l / 86400) = (c_year c, c_month c, c_day c) ->
+  civil_from_days (l' / 86400) = (c_year c', c_month c', c_day c') ->
+  c_hour c = l mod 86400 / 3600 -> c_min c = l mod 86400 mod 3600 / 60 -> c_sec c = l mod 86400 mod 60 ->
+  c_hour c' = l' mod 86400 / 3600 -> c_min c' = l' mod 86400 mod 3600 / 60 -> c_sec c' = l' mod 86400 mod 60 ->
+  trunc_local u l = trunc_local u l' -> (u = UNanos -> c_nsec c = c_nsec c') ->
+  same_upto u c c'.
+Proof.
+  intros F F' Ch Cm Cs Ch' Cm' Cs' H Hn.
   unfold same_upto.
   assert (Same_day : l / 86400 = l' / 86400 ->
            c_year c = c_year c' /\ c_month c = c_month c' /\ c_day c = c_day c').
-  { intros E. rewrite E in F. rewrite F in F'. inversion F'. auto. }
-  destruct u; cbn [trunc_local] in H.
+  { intros E. rewrite E in F. rewrite F in F'. injection F' as E1 E2 E3. auto. }
+  destruct u; [cbn [trunc_local] in H|cbn [trunc_local] in H|cbn [trunc_local] in H|cbn [trunc_local] in H|cbn [trunc_local] in H| |].
   - (* nanos: the local second itself *)
     assert (E : l = l') by exact H. destruct (Same_day ltac:(congruence)) as (? & ? & ?).
-    rewrite Ch, Ch', Cm, Cm', Cs, Cs', Cn, Cn', E.
+    rewrite Ch, Ch', Cm, Cm', Cs, Cs', E.
     fin.
   - assert (E : l = l') by exact H. destruct (Same_day ltac:(congruence)) as (? & ? & ?).
     rewrite Ch, Ch', Cm, Cm', Cs, Cs', E.
@@ -91,19 +102,26 @@ Proof.
     destruct (Same_day Ed) as (? & ? & ?).
     fin.
   - (* months *)
-    rewrite F, F' in H.
-    assert (E : days_from_civil (c_year c) (c_month c) 1 = days_from_civil (c_year c') (c_month c') 1) by lia.
+    rewrite (trunc_months _ _ _ _ F), (trunc_months _ _ _ _ F') in H. apply mul86400_inj in H.
     pose proof (month_start_inverse _ _ _ _ F) as I1. pose proof (month_start_inverse _ _ _ _ F') as I2.
-    rewrite E in I1. rewrite I1 in I2. inversion I2.
+    rewrite H in I1. rewrite I1 in I2. injection I2 as E1 E2.
     fin.
   - (* years *)
-    rewrite F, F' in H.
-    assert (E : year_start (c_year c) = year_start (c_year c')) by lia.
-    assert (c_year c = c_year c').
-    { destruct (Z.lt_trichotomy (c_year c) (c_year c')) as [L|[E'|L]]; [|exact E'|].
-      - pose proof (year_start_lt_mono _ _ L). lia.
-      - pose proof (year_start_lt_mono _ _ L). lia. }
+    rewrite (trunc_years _ _ _ _ F), (trunc_years _ _ _ _ F') in H. apply mul86400_inj, year_start_inj in H.
     fin.
+Qed.
+
+(* same bucket -> same key *)
+Theorem bucket_same_key : forall u t t' n n' off a a',
+  trunc_local u (t + off) = trunc_local u (t' + off) -> (u = UNanos -> n = n') ->
+  format_layout (unit_layout u) (civil_of t n off a) = format_layout (unit_layout u) (civil_of t' n' off a').
+Proof.
+  intros u t t' n n' off a a' H Hn. apply key_depends_on_fields.
+  destruct (civil_clock t n off a) as (Ch & Cm & Cs & Cn).
+  destruct (civil_clock t' n' off a') as (Ch' & Cm' & Cs' & Cn').
+  apply (bucket_fields u (t + off) (t' + off)); auto.
+  all: try apply civil_fields_of_day.
+  all: try (intros E; rewrite Cn, Cn'; auto).
 Qed.
 
 (* the truncation is the start of the unit holding the instant: idempotent and not after it *)
